@@ -220,12 +220,18 @@ func (r *nodeBasedBalancer) swapShard(
 
 	// filter selected
 	selected := linkedhashset.New[string]()
+	isMember := false
 	for _, candidate := range candidateShard.Ensemble {
 		candidateID := candidate.GetIdentifier()
 		if candidateID == fromNodeID {
+			isMember = true
 			continue
 		}
 		selected.Add(candidateID)
+	}
+	if !isMember {
+		// the shard is not hosted by the from-node (any more): there is nothing to move away from it
+		return false, nil
 	}
 	sContext.SetSelected(selected)
 
@@ -249,6 +255,17 @@ func (r *nodeBasedBalancer) swapShard(
 		waiter: swapGroup,
 	}
 	r.Info("propose to swap the shard", slog.Int64("shard", candidateShard.ShardID), slog.Any("from", fromNode), slog.Any("to", targetNodeID))
+	// The same shard can be considered again in this round (through another member): every copy of its
+	// info must see the ensemble as it will be after this swap, otherwise a later proposal could pick a
+	// server that is already a member (or that breaks the anti-affinity with the new member).
+	newEnsemble := make([]model.Server, 0, len(candidateShard.Ensemble))
+	for _, member := range candidateShard.Ensemble {
+		if member.GetIdentifier() != fromNodeID {
+			newEnsemble = append(newEnsemble, member)
+		}
+	}
+	newEnsemble = append(newEnsemble, *targetNode)
+	loadRatios.UpdateShardEnsemble(candidateShard.Namespace, candidateShard.ShardID, newEnsemble)
 	loadRatios.MoveShardToNode(candidateShard, fromNodeID, targetNodeID)
 	loadRatios.ReCalculateRatios()
 	return true, nil
